@@ -46,12 +46,12 @@ def joint_shannon_entropy(stringX, stringY):
 
     :return: a real number representing the joint Shannon entropy between the given strings, in bits
     """
-    X = np.array(list(stringX), dtype=object)
-    Y = np.array(list(stringY), dtype=object)
+    X = list(stringX)
+    Y = list(stringY)
     joint_symbol_probabilities = []
     for x in set(X):
         for y in set(Y):
-            joint_symbol_probabilities.append(np.mean(np.logical_and(X == x, Y == y)))
+            joint_symbol_probabilities.append(np.mean([a == x and b == y for a, b in zip(X, Y)]))
     return sum([-p * np.log2(p) for p in joint_symbol_probabilities if p != 0])
 
 
